@@ -543,6 +543,21 @@ func Run(cfg Cfg, ctx *explore.Ctx) Result {
 		}
 		w.viol(fmt.Sprintf("c03:%s:commit@%s:sync-loop-died", mode, at), fmt.Sprintf("Sync returned by itself with error: %v (application commits at %v)", w.syncErr, w.commitAt))
 	}
+	if cfg.OnlyOnce {
+		if outcome != "sync-returned" {
+			w.viol("c16:run-once-does-not-end", fmt.Sprintf("only_once: Sync has not returned (outcome %s, loads %d, stores %d)", outcome, w.loads, w.stores))
+		} else {
+			if w.syncErr != nil {
+				w.viol("c16:run-once-returned-error", fmt.Sprintf("only_once: Sync returned %v", w.syncErr))
+			}
+			// not earlier: the newest snapshot of every instance present at start-up has been merged
+			view := w.appView()
+			_, bTouched := w.touched["d/b"]
+			if (!bTouched && view["d"]["b"] != "rb") || view["e"]["ek"] != "ev" {
+				w.viol("c16:run-once-ended-before-merging-all-instances", fmt.Sprintf("only_once: Sync returned after %d merges but the content of instance r's snapshot is not in the LMDB: %s", w.loads, world.PlainString(view)))
+			}
+		}
+	}
 	// shut down: cancel, drain, Sync must return
 	cancel()
 	s.Uninstall()
